@@ -194,5 +194,33 @@ func scripted(seed int64) []*hist {
 		}
 		out = append(out, h)
 	}
+	// -9, -10 (monitor only): a stored proposal record that no longer decodes — what the end blocker's
+	// failUnsupportedProposal branches are for — in the inactive queue (-9: handled once, but the
+	// queue entry stays and the NEXT block fails with ErrNotFound) and in the active queue (-10: nil
+	// pointer dereference on the zero record's VotingEndTime)
+	for _, both := range []bool{false, true} {
+		idx := -9
+		if both {
+			idx = -10
+		}
+		h := newHist(seed, idx, "plain")
+		h.noCorr = true
+		min := h.minFor(false)
+		h.opSubmitKind("text", 10, new(big.Int).Quo(min, big.NewInt(2)), false) // 1: deposit period
+		h.opSubmitKind("text", 11, min, false)                                  // 2: voting
+		h.opVote(2, 0, [][2]string{{"1", e18.String()}}, false)
+		h.opEndBlock(time.Hour)
+		if both {
+			h.opCorrupt(2)
+		} else {
+			h.opCorrupt(1)
+		}
+		h.opDeposit(1, 12, new(big.Int).Quo(min, big.NewInt(2)), false)
+		h.opVote(2, 1, [][2]string{{"1", e18.String()}}, false)
+		for k := 0; k < 5 && !h.halted; k++ {
+			h.opEndBlock(time.Duration(h.params.VotingPeriod.Seconds()/2+900) * time.Second)
+		}
+		out = append(out, h)
+	}
 	return out
 }
